@@ -1,5 +1,1241 @@
 package c07
 
-import "verif/harness/eng"
+import (
+	"fmt"
+	"math"
+	"math/big"
+	"os"
 
-func ckksCases(tier string, seed int64) []eng.Case { return nil }
+	"github.com/tuneinsight/lattigo/v6/core/rlwe"
+	"github.com/tuneinsight/lattigo/v6/ring"
+	"github.com/tuneinsight/lattigo/v6/ring/ringqp"
+	"github.com/tuneinsight/lattigo/v6/schemes/ckks"
+	"github.com/tuneinsight/lattigo/v6/utils/bignum"
+
+	"verif/harness/eng"
+	"verif/harness/gen"
+	"verif/harness/obs"
+	"verif/harness/ref"
+)
+
+type ckksCfg struct {
+	Ring     string   `json:"ring"` // std | ci
+	LogN     int      `json:"logN"`
+	Q        []uint64 `json:"q"`
+	P        []uint64 `json:"p"`
+	QBits    []int    `json:"qbits"`
+	LogScale int      `json:"logScale"`
+	Prec     uint     `json:"prec"` // 0 = encoder default (max(53, log2 scale))
+}
+
+type precCombo struct {
+	logScale int
+	prec     uint
+}
+
+func ckksCases(tier string, seed int64) []eng.Case {
+	r := eng.NewRand("c07-ckks-cases", seed)
+	logNs := []int{4, 5, 6, 7, 8}
+	combos := []precCombo{{30, 0}, {45, 0}, {53, 0}, {54, 0}, {60, 0}, {90, 0}, {120, 0}, {40, 128}, {45, 256}, {30, 64}}
+	per := 5
+	if tier == "thorough" {
+		logNs = []int{4, 5, 6, 7, 8, 9, 10}
+		per = 10
+	}
+	var out []eng.Case
+	seen := map[string]bool{}
+	for _, rt := range []string{"std", "ci"} {
+		for _, logN := range logNs {
+			perm := r.Perm(len(combos))
+			for _, ci := range perm[:per] {
+				cb := combos[ci]
+				nth := uint64(2) << logN
+				if rt == "ci" {
+					nth <<= 1
+				}
+				minb := ref.BitLen(nth) + 1
+				var qbits []int
+				total := 0
+				nq := 1 + r.N(4)
+				for i := 0; i < nq || total < cb.logScale+12; i++ {
+					b := eng.Pick(r, 30, 36, 40, 45, 50, 55, 60)
+					if b < minb {
+						b = minb
+					}
+					qbits = append(qbits, b)
+					total += b
+					if len(qbits) >= 6 {
+						break
+					}
+				}
+				var pbits []int
+				for i := r.N(3); i > 0; i-- {
+					pbits = append(pbits, eng.Pick(r, 40, 55, 60))
+				}
+				q, p := gen.Chain(r, nth, qbits, pbits)
+				if q == nil {
+					continue
+				}
+				cfg := ckksCfg{Ring: rt, LogN: logN, Q: q, P: p, QBits: qbits, LogScale: cb.logScale, Prec: cb.prec}
+				id := fmt.Sprintf("ckks/%s/logN%d/q%v/p%v/scale%d/prec%d", rt, logN, qbits, pbits, cb.logScale, cb.prec)
+				if seen[id] {
+					continue
+				}
+				seen[id] = true
+				out = append(out, eng.Case{ID: id, Sig: "C07|ckks", Desc: cfg, Run: func(c *eng.Ctx) { runCKKS(c, cfg) }})
+			}
+		}
+	}
+	return out
+}
+
+// ---------------------------------------------------------------------------------------------
+
+const tprec = 384 // precision of the truth values and of all comparisons
+
+type ckksEnv struct {
+	c           *eng.Ctx
+	cfg         ckksCfg
+	params      ckks.Parameters
+	ecd         *ckks.Encoder
+	ci          bool
+	arb         bool
+	prec        uint // working precision of the encoder: 53 or Prec()
+	N           int
+	maxLogSlots int
+	rnd         *eng.Rand
+	mprec       uint // precision of the embedding model
+	ringTag     string
+	pathTag     string
+}
+
+type cvec struct {
+	re, im []*big.Float // exact values; im nil entries never occur
+}
+
+func bf(x float64) *big.Float { return new(big.Float).SetPrec(tprec).SetFloat64(x) }
+
+func zeroVec(n int) cvec {
+	v := cvec{re: make([]*big.Float, n), im: make([]*big.Float, n)}
+	for i := 0; i < n; i++ {
+		v.re[i], v.im[i] = bf(0), bf(0)
+	}
+	return v
+}
+
+// randMant returns +-m * 2^(ex-bits) with m a uniformly random `bits`-bit integer (top bit set):
+// |value| in [2^(ex-1), 2^ex).
+func (e *ckksEnv) randMant(ex int, bits uint) *big.Float {
+	buf := make([]byte, (bits+7)/8)
+	e.rnd.Read(buf)
+	m := new(big.Int).SetBytes(buf)
+	m.Rsh(m, uint(len(buf)*8)-bits)
+	m.SetBit(m, int(bits)-1, 1)
+	f := new(big.Float).SetPrec(tprec).SetInt(m)
+	f.SetMantExp(f, ex-int(bits))
+	if e.rnd.Bool() {
+		f.Neg(f)
+	}
+	return f
+}
+
+var ckksPats = []string{"disc", "mixed", "onehot", "const", "alt", "real", "imag", "tiny", "holes"}
+
+// genVec draws `length` values whose modulus is below 2^exMax; exMin is the exponent of the
+// smallest meaningful magnitude (1/scale). mant = mantissa bits of each component.
+func (e *ckksEnv) genVec(length int, pat string, exMax, exMin int, mant uint, realOnly bool) cvec {
+	v := zeroVec(length)
+	if length == 0 {
+		return v
+	}
+	ec := exMax - 1 // each component < 2^(exMax-1): modulus < 2^exMax / sqrt2
+	if exMin > ec {
+		exMin = ec
+	}
+	comp := func(ex int) (*big.Float, *big.Float) {
+		re := e.randMant(ex, mant)
+		im := bf(0)
+		if !realOnly {
+			im = e.randMant(ex-e.rnd.N(3), mant)
+		}
+		return re, im
+	}
+	switch pat {
+	case "disc":
+		for i := range v.re {
+			v.re[i], v.im[i] = comp(ec - e.rnd.N(3))
+		}
+	case "mixed":
+		for i := range v.re {
+			v.re[i], v.im[i] = comp(exMin + e.rnd.N(ec-exMin+1))
+		}
+	case "onehot":
+		i := e.rnd.N(length)
+		v.re[i], v.im[i] = comp(ec)
+	case "const":
+		re, im := comp(ec)
+		for i := range v.re {
+			v.re[i], v.im[i] = new(big.Float).Copy(re), new(big.Float).Copy(im)
+		}
+	case "alt":
+		re, im := comp(ec)
+		for i := range v.re {
+			v.re[i], v.im[i] = new(big.Float).Copy(re), new(big.Float).Copy(im)
+			if i&1 == 1 {
+				v.re[i].Neg(v.re[i])
+				v.im[i].Neg(v.im[i])
+			}
+		}
+	case "real":
+		for i := range v.re {
+			v.re[i] = e.randMant(ec-e.rnd.N(2), mant)
+		}
+	case "imag":
+		for i := range v.re {
+			if realOnly {
+				v.re[i] = e.randMant(ec, mant)
+			} else {
+				v.im[i] = e.randMant(ec, mant)
+			}
+		}
+	case "tiny":
+		// around half a unit of the fixed-point grid, both signs (rounds to 0 or +-1)
+		for i := range v.re {
+			v.re[i] = e.randMant(exMin-e.rnd.N(3)+1, mant)
+			if !realOnly && e.rnd.Bool() {
+				v.im[i] = e.randMant(exMin-e.rnd.N(3)+1, mant)
+			}
+			if v.re[i].MantExp(nil) > ec {
+				v.re[i], v.im[i] = bf(0), bf(0)
+			}
+		}
+	case "holes":
+		for i := range v.re {
+			if e.rnd.N(3) != 0 {
+				v.re[i], v.im[i] = comp(ec - e.rnd.N(4))
+			}
+		}
+	}
+	return v
+}
+
+func maxMod(v cvec) float64 {
+	m := 0.0
+	for i := range v.re {
+		a, _ := v.re[i].Float64()
+		b, _ := v.im[i].Float64()
+		if h := math.Hypot(a, b); h > m {
+			m = h
+		}
+	}
+	return m * (1 + 1e-12)
+}
+
+// toInput converts the exact vector to the requested input type (values are exactly
+// representable in it by construction). A nil entry stands for 0 in the big types.
+func (e *ckksEnv) toInput(v cvec, typ string, pin uint) any {
+	switch typ {
+	case "c128":
+		out := make([]complex128, len(v.re))
+		for i := range out {
+			a, _ := v.re[i].Float64()
+			b, _ := v.im[i].Float64()
+			out[i] = complex(a, b)
+		}
+		return out
+	case "f64":
+		out := make([]float64, len(v.re))
+		for i := range out {
+			out[i], _ = v.re[i].Float64()
+		}
+		return out
+	case "bigF":
+		out := make([]*big.Float, len(v.re))
+		for i := range out {
+			if v.re[i].Sign() == 0 && e.rnd.Bool() && i > 0 {
+				continue // nil = 0
+			}
+			out[i] = new(big.Float).SetPrec(pin).Set(v.re[i])
+		}
+		return out
+	default: // bigC
+		out := make([]*bignum.Complex, len(v.re))
+		for i := range out {
+			if v.re[i].Sign() == 0 && v.im[i].Sign() == 0 && e.rnd.Bool() {
+				continue
+			}
+			out[i] = &bignum.Complex{new(big.Float).SetPrec(pin).Set(v.re[i]), new(big.Float).SetPrec(pin).Set(v.im[i])}
+		}
+		return out
+	}
+}
+
+// fromOutput converts a decoded slice to exact values; bad != "" when the output holds NaN/Inf/nil.
+func fromOutput(out any) (v cvec, bad string) {
+	setf := func(x float64) (*big.Float, bool) {
+		if math.IsNaN(x) || math.IsInf(x, 0) {
+			return bf(0), false
+		}
+		return bf(x), true
+	}
+	switch o := out.(type) {
+	case []complex128:
+		v = zeroVec(len(o))
+		for i := range o {
+			var ok1, ok2 bool
+			v.re[i], ok1 = setf(real(o[i]))
+			v.im[i], ok2 = setf(imag(o[i]))
+			if !ok1 || !ok2 {
+				bad = fmt.Sprintf("slot %d is %v", i, o[i])
+			}
+		}
+	case []float64:
+		v = zeroVec(len(o))
+		for i := range o {
+			var ok bool
+			if v.re[i], ok = setf(o[i]); !ok {
+				bad = fmt.Sprintf("slot %d is %v", i, o[i])
+			}
+		}
+	case []*big.Float:
+		v = zeroVec(len(o))
+		for i := range o {
+			if o[i] == nil || o[i].IsInf() {
+				bad = fmt.Sprintf("slot %d is nil/Inf", i)
+				continue
+			}
+			v.re[i] = new(big.Float).SetPrec(tprec).Set(o[i])
+		}
+	case []*bignum.Complex:
+		v = zeroVec(len(o))
+		for i := range o {
+			if o[i] == nil || o[i][0] == nil || o[i][1] == nil || o[i][0].IsInf() || o[i][1].IsInf() {
+				bad = fmt.Sprintf("slot %d is nil/Inf", i)
+				continue
+			}
+			v.re[i] = new(big.Float).SetPrec(tprec).Set(o[i][0])
+			v.im[i] = new(big.Float).SetPrec(tprec).Set(o[i][1])
+		}
+	}
+	return
+}
+
+func newOutput(typ string, n int) any {
+	switch typ {
+	case "c128":
+		o := make([]complex128, n)
+		for i := range o {
+			o[i] = complex(1e300, -1e300)
+		}
+		return o
+	case "f64":
+		o := make([]float64, n)
+		for i := range o {
+			o[i] = 1e300
+		}
+		return o
+	case "bigF":
+		return make([]*big.Float, n)
+	default:
+		return make([]*bignum.Complex, n)
+	}
+}
+
+func outPrec(typ string) uint {
+	if typ == "c128" || typ == "f64" {
+		return 53
+	}
+	return 1 << 20
+}
+
+func realType(typ string) bool { return typ == "f64" || typ == "bigF" }
+
+// errAt returns |got_i - want_i| (complex modulus, or real part only) as a float64.
+func errAt(gr, gi, wr, wi *big.Float, realOnly bool) float64 {
+	d := new(big.Float).SetPrec(tprec).Sub(gr, wr)
+	a, _ := d.Float64()
+	if realOnly {
+		return math.Abs(a)
+	}
+	d.Sub(gi, wi)
+	b, _ := d.Float64()
+	return math.Hypot(a, b)
+}
+
+// bound is the worst-case distance between an input slot value and its decoded value: rounding of
+// every real coefficient to an integer (error <= 1 unit each, propagated through the n-term
+// embedding sum) plus the floating-point error of an n-point inverse and forward FFT at p bits.
+func (e *ckksEnv) bound(logSlots int, scale float64, M float64, pout uint) float64 {
+	n := float64(int(1) << logSlots)
+	k := 1.5
+	if e.ci {
+		k = 2
+	}
+	p := e.prec
+	if pout < p {
+		p = pout
+	}
+	rel := math.Ldexp(float64(2*logSlots+4)*math.Sqrt(n)*M, -(int(p) - 4))
+	return (k*n/scale + rel) * 1.01
+}
+
+func scaleF64(s rlwe.Scale) float64 { f, _ := s.Value.Float64(); return f }
+
+func (e *ckksEnv) log2Q(level int) int {
+	return e.params.RingQ().ModulusAtLevel[level].BitLen()
+}
+
+// pickScale returns a scale for the level and its class tag.
+func (e *ckksEnv) pickScale(level int, cls int) (rlwe.Scale, string) {
+	lq := e.log2Q(level)
+	switch cls {
+	case 1: // other power of two
+		hi := lq - 6
+		if hi > 120 {
+			hi = 120
+		}
+		if hi < 9 {
+			hi = 9
+		}
+		k := 8 + e.rnd.N(hi-8+1)
+		return rlwe.NewScale(new(big.Float).SetMantExp(big.NewFloat(1), k)), "pow2"
+	case 2: // not a power of two, not an integer
+		hi := lq - 6
+		if hi > 100 {
+			hi = 100
+		}
+		if hi < 9 {
+			hi = 9
+		}
+		k := 8 + e.rnd.N(hi-8+1)
+		return rlwe.NewScale(math.Ldexp(1+e.rnd.F64(), k)), "nonpow2"
+	case 3: // a prime of the chain (what rescaling produces)
+		q := e.params.Q()[e.rnd.N(level+1)]
+		if ref.BitLen(q) > lq-4 {
+			return e.params.DefaultScale(), "default"
+		}
+		return rlwe.NewScale(q), "prime"
+	}
+	return e.params.DefaultScale(), "default"
+}
+
+func runCKKS(c *eng.Ctx, cfg ckksCfg) {
+	rt := ring.Standard
+	if cfg.Ring == "ci" {
+		rt = ring.ConjugateInvariant
+	}
+	params, err := ckks.NewParametersFromLiteral(ckks.ParametersLiteral{LogN: cfg.LogN, Q: cfg.Q, P: cfg.P, RingType: rt, LogDefaultScale: cfg.LogScale})
+	if err != nil {
+		c.Inconclusive(fmt.Sprintf("parameters rejected: %v", err))
+		return
+	}
+	e := &ckksEnv{c: c, cfg: cfg, params: params, ci: cfg.Ring == "ci", N: params.N(), maxLogSlots: params.LogMaxSlots(), rnd: c.Rand(), ringTag: cfg.Ring}
+	if cfg.Prec != 0 {
+		e.ecd = ckks.NewEncoder(params, cfg.Prec)
+	} else {
+		e.ecd = ckks.NewEncoder(params)
+	}
+	e.prec = e.ecd.Prec()
+	e.arb = e.prec > 53
+	e.pathTag = "f64"
+	if e.arb {
+		e.pathTag = "arb"
+	} else {
+		e.prec = 53
+	}
+	e.mprec = e.prec + 96
+	if e.mprec < 192 {
+		e.mprec = 192
+	}
+	c.Sample(map[string]any{"scheme": "ckks", "cfg": cfg, "encoder_precision": e.ecd.Prec(), "max_log_slots": e.maxLogSlots})
+
+	maxL := params.MaxLevel()
+	levels := []int{}
+	if maxL <= 2 {
+		for l := 0; l <= maxL; l++ {
+			levels = append(levels, l)
+		}
+	} else {
+		levels = []int{0, 1 + e.rnd.N(maxL-1), maxL}
+	}
+	e.fftChecks()
+	iter := 0
+	for _, level := range levels {
+		reused := ckks.NewPlaintext(params, level)
+		for logSlots := e.maxLogSlots; logSlots >= 0; logSlots-- {
+			for _, isNTT := range []bool{true, false} {
+				for rep := 0; rep < 2; rep++ {
+					iter++
+					e.slotCase(level, logSlots, isNTT, iter, reused)
+				}
+			}
+			e.product(level, logSlots)
+		}
+		e.coeffCases(level)
+	}
+}
+
+type sub struct {
+	level, logSlots int
+	isNTT, isMont   bool
+	target          string
+	lp              int
+	inType, outType string
+	pat             string
+	length          int
+	lenTag          string
+	scale           rlwe.Scale
+	scTag           string
+	magTag          string
+}
+
+func (e *ckksEnv) sparse(logSlots int) bool { return logSlots < e.maxLogSlots }
+
+// class gives the discriminating predicate of a failure of the encoding step.
+func (e *ckksEnv) class(s sub) string {
+	switch {
+	case e.sparse(s.logSlots) && !s.isNTT:
+		return "sparse-nonNTT"
+	case e.ci && s.logSlots == 0 && s.isNTT && e.sparse(0):
+		return "ci-1slot-NTT"
+	}
+	d := "dense"
+	if e.sparse(s.logSlots) {
+		d = "sparse"
+	}
+	n := "ntt"
+	if !s.isNTT {
+		n = "nonNTT"
+	}
+	return fmt.Sprintf("%s/%s/%s/%s/%s", e.ringTag, e.pathTag, d, n, lvlSig(s.level))
+}
+
+func (e *ckksEnv) desc(s sub, M float64) string {
+	return fmt.Sprintf("ring=%s N=%d Q=%v level=%d logSlots=%d (max %d) IsNTT=%v IsMontgomery=%v target=%s levelP=%d encoder precision=%d in=%s out=%s pattern=%s len=%d scale=%s(%s) max|v|=%.6g",
+		e.ringTag, e.N, e.cfg.Q, s.level, s.logSlots, e.maxLogSlots, s.isNTT, s.isMont, s.target, s.lp, e.ecd.Prec(), s.inType, s.outType, s.pat, s.length, s.scale.Value.Text('g', 12), s.scTag, M)
+}
+
+func (e *ckksEnv) slotList(n, length int) []int {
+	if n <= 128 {
+		l := make([]int, n)
+		for i := range l {
+			l[i] = i
+		}
+		return l
+	}
+	set := map[int]bool{0: true, 1: true, n - 1: true}
+	if length > 0 {
+		set[length-1] = true
+	}
+	if length < n {
+		set[length] = true
+	}
+	for len(set) < 48 {
+		set[e.rnd.N(n)] = true
+	}
+	var l []int
+	for i := 0; i < n; i++ {
+		if set[i] {
+			l = append(l, i)
+		}
+	}
+	return l
+}
+
+// modelDecode evaluates the canonical embedding of the polynomial at the listed slots.
+func (e *ckksEnv) modelDecode(r *ring.Ring, p ring.Poly, isNTT, isMont bool, logSlots int, scale *big.Float, slots []int) (got cvec, ok bool, bad int, unreduced bool) {
+	n := 1 << logSlots
+	nReal := 2 * n
+	if e.ci {
+		nReal = n
+	}
+	coef, ok, bad, unreduced := polyCoeffs(r, p, isNTT, isMont, nReal, scale, e.mprec)
+	got = zeroVec(len(slots))
+	if !ok {
+		return
+	}
+	if e.ci {
+		got.re = embedCI(coef, n, slots, e.mprec)
+	} else {
+		got.re, got.im = embedStd(coef, n, slots, e.mprec)
+	}
+	return
+}
+
+func (e *ckksEnv) slotCase(level, logSlots int, isNTT bool, iter int, reused *rlwe.Plaintext) {
+	c := e.c
+	n := 1 << logSlots
+	s := sub{level: level, logSlots: logSlots, isNTT: isNTT, lp: -1}
+	// what is drawn
+	s.target = "pt"
+	if x := e.rnd.N(5); x == 0 {
+		s.target = "ring.Poly"
+		s.isMont = e.rnd.Bool()
+	} else if x == 1 && e.params.PCount() > 0 {
+		s.target = "ringqp.Poly"
+		s.isMont = e.rnd.Bool()
+		s.lp = e.rnd.N(e.params.PCount())
+	}
+	s.inType = eng.Pick(e.rnd, "c128", "f64", "bigF", "bigC")
+	s.outType = eng.Pick(e.rnd, "c128", "f64", "bigF", "bigC")
+	s.pat = ckksPats[(iter+e.rnd.N(3))%len(ckksPats)]
+	switch (iter + e.rnd.N(2)) % 4 {
+	case 0, 1:
+		s.length, s.lenTag = n, "full"
+	case 2:
+		s.length, s.lenTag = 1, "1"
+	default:
+		s.length, s.lenTag = 1+e.rnd.N(n), "rand"
+	}
+	s.scale, s.scTag = e.pickScale(level, (iter/3+e.rnd.N(2))%4)
+	sf := scaleF64(s.scale)
+	// admissible magnitudes: 2^exMin ~ 1/scale ... 2^exMax <= 0.45*Q/scale (and P when embedding into QP)
+	lq := e.log2Q(level)
+	if s.lp >= 0 {
+		if lpb := e.params.RingP().ModulusAtLevel[s.lp].BitLen(); lpb < lq {
+			lq = lpb
+		}
+	}
+	exMax := lq - 2 - int(math.Ceil(math.Log2(sf))) // 2^exMax * scale <= Q/4
+	exMin := -int(math.Floor(math.Log2(sf)))
+	if exMax <= exMin-1 {
+		c.Count("ckks_skipped_scale_above_Q", 1)
+		return
+	}
+	switch e.rnd.N(4) {
+	case 0:
+		s.magTag = "max"
+	case 1:
+		s.magTag = "unit"
+		if exMax > 1 {
+			exMax = 1
+		}
+	default:
+		s.magTag = "mid"
+		exMax = exMin + 1 + e.rnd.N(exMax-exMin+1)
+		if exMax > lq-2-int(math.Ceil(math.Log2(sf))) {
+			exMax = lq - 2 - int(math.Ceil(math.Log2(sf)))
+		}
+	}
+	realOnly := e.ci || realType(s.inType)
+	mant := uint(53)
+	pin := uint(53)
+	if s.inType == "bigF" || s.inType == "bigC" {
+		pin = e.prec
+		if !e.arb {
+			pin = 80
+		}
+		mant = pin
+	}
+	v := e.genVec(s.length, s.pat, exMax, exMin, mant, realOnly)
+	M := maxMod(v)
+	in := e.toInput(v, s.inType, pin)
+	truth := zeroVec(n)
+	copy(truth.re, v.re)
+	copy(truth.im, v.im)
+
+	trivial := s.pat == "disc" && s.lenTag == "full" && level == e.params.MaxLevel() && s.scTag == "default" && isNTT && s.target == "pt" && !e.sparse(logSlots) && !e.arb && s.inType == "c128" && s.outType == "c128"
+	key := fmt.Sprintf("ckks/%s/%s/logN%d/%s/ls%d/ntt%v/%s/mont%v/%s>%s/%s/len%s/sc%s/mag%s", e.ringTag, e.pathTag, e.cfg.LogN, lvlTag(level, e.params.MaxLevel()), logSlots, isNTT, s.target, s.isMont, s.inType, s.outType, s.pat, s.lenTag, s.scTag, s.magTag)
+	c.Distinct(key, !trivial)
+	c.Count("ckks_slot_encodings", 1)
+	if e.sparse(logSlots) {
+		c.Count("ckks_sparse_encodings", 1)
+	}
+	cls := e.class(s)
+	desc := func() string { return e.desc(s, M) }
+
+	// ---- encode
+	rQ := e.params.RingQ().AtLevel(level)
+	var pt *rlwe.Plaintext
+	var polyQ, polyP ring.Poly
+	var encErr error
+	md := &rlwe.MetaData{}
+	md.Scale = s.scale
+	md.IsBatched = true
+	md.LogDimensions = ring.Dimensions{Rows: 0, Cols: logSlots}
+	md.IsNTT, md.IsMontgomery = isNTT, s.isMont
+	var call func()
+	switch s.target {
+	case "pt":
+		pt = reused
+		if e.rnd.N(3) == 0 {
+			pt = ckks.NewPlaintext(e.params, level)
+		} else {
+			fill(e.rnd, pt.Value)
+		}
+		*pt.MetaData = *md
+		polyQ = pt.Value
+		call = func() { encErr = e.ecd.Encode(in, pt) }
+	case "ring.Poly":
+		polyQ = rQ.NewPoly()
+		fill(e.rnd, polyQ)
+		call = func() { encErr = e.ecd.Embed(in, md, polyQ) }
+	default:
+		pp := ringqp.NewPoly(e.N, level, s.lp)
+		fill(e.rnd, pp.Q)
+		fill(e.rnd, pp.P)
+		polyQ, polyP = pp.Q, pp.P
+		call = func() { encErr = e.ecd.Embed(in, md, pp) }
+	}
+	if p, val := eng.Panics(call); p {
+		c.Eval(1)
+		c.Violate("C07|ckks.Encoder.Embed|panic|"+cls, desc()+fmt.Sprintf(": %v", val), e.cfg)
+		return
+	}
+	if encErr != nil {
+		c.Violate("C07|ckks.Encoder.Embed|error-on-admissible|"+cls, desc()+": "+encErr.Error(), e.cfg)
+		return
+	}
+	// ---- independent decoding of the polynomial
+	slots := e.slotList(n, s.length)
+	B := e.bound(logSlots, sf, M, 1<<20)
+	check := func(r *ring.Ring, p ring.Poly, part string) (good bool, unreduced bool) {
+		got, ok, bad, unred := e.modelDecode(r, p, isNTT, s.isMont, logSlots, &s.scale.Value, slots)
+		c.Eval(1)
+		if !ok {
+			c.Violate("C07|ckks.Encoder.Embed|wrong-value|"+cls, desc()+fmt.Sprintf(": %s part: coefficient %d outside the sub-ring Z[X^(N/n)] is non-zero", part, bad), e.cfg)
+			return false, unred
+		}
+		worst, wi := 0.0, -1
+		for a, i := range slots {
+			if er := errAt(got.re[a], got.im[a], truth.re[i], truth.im[i], e.ci); er > worst || math.IsNaN(er) {
+				worst, wi = er, i
+			}
+		}
+		if worst <= B {
+			c.Max("max_ckks_encode_err_over_bound_x1000_"+e.pathTag, int64(1000*worst/B))
+		}
+		if !(worst <= B) {
+			c.Violate("C07|ckks.Encoder.Embed|wrong-value|"+cls, desc()+fmt.Sprintf(": %s part: canonical embedding of the polynomial at slot %d is off by %.4g, bound %.4g", part, wi, worst, B), e.cfg)
+			return false, unred
+		}
+		return true, unred
+	}
+	good, unreduced := check(rQ, polyQ, "Q")
+	if unreduced {
+		c.Count("ckks_embeddings_with_residues_ge_q", 1)
+	}
+	if s.lp >= 0 && good {
+		check(e.params.RingP().AtLevel(s.lp), polyP, "P")
+	}
+	if !good || s.target != "pt" || s.isMont {
+		return
+	}
+	// ---- the encoder's own decoding
+	e.decodeCheck(pt, s, truth, M, sf, unreduced, desc)
+}
+
+func (e *ckksEnv) decodeCheck(pt *rlwe.Plaintext, s sub, truth cvec, M, sf float64, unreduced bool, desc func() string) {
+	c := e.c
+	n := 1 << s.logSlots
+	cls := e.class(s)
+	switch {
+	case e.ci && e.arb:
+		// one decoding routine (polyToComplex*, []*bignum.Complex branch, isreal) serves all of these
+		cls = "ci/arb"
+	case unreduced && !s.isNTT && s.level == 0:
+		cls = "nonNTT-residues-not-reduced/level0"
+	}
+	type dec struct {
+		logprec float64
+		outLen  int
+	}
+	decs := []dec{{0, n}}
+	if s.length < n && s.length > 0 {
+		decs = append(decs, dec{0, s.length})
+	}
+	decs = append(decs, dec{eng.Pick(e.rnd, 8.0, 20, 12.5, 45), n})
+	for _, d := range decs {
+		out := newOutput(s.outType, d.outLen)
+		var err error
+		api := "ckks.Encoder.Decode"
+		call := func() { err = e.ecd.Decode(pt, out) }
+		if d.logprec != 0 {
+			api = "ckks.Encoder.DecodePublic"
+			call = func() { err = e.ecd.DecodePublic(pt, out, d.logprec) }
+		}
+		c.Eval(1)
+		if p, val := eng.Panics(call); p {
+			c.Violate("C07|"+api+"|panic|"+cls, desc()+fmt.Sprintf(": out len %d: %v", d.outLen, val), e.cfg)
+			continue
+		}
+		if err != nil {
+			c.Violate("C07|"+api+"|error-on-admissible|"+cls, desc()+": "+err.Error(), e.cfg)
+			continue
+		}
+		got, bad := fromOutput(out)
+		if bad != "" {
+			c.Violate("C07|"+api+"|wrong-value|"+cls, desc()+": "+bad, e.cfg)
+			continue
+		}
+		B := e.bound(s.logSlots, sf, M, outPrec(s.outType))
+		if d.logprec != 0 {
+			B += 0.7072 * math.Exp2(-d.logprec) * 1.001
+			c.Count("ckks_decodepublic", 1)
+		} else {
+			c.Count("ckks_decodes", 1)
+		}
+		worst, wi := 0.0, -1
+		for i := 0; i < d.outLen; i++ {
+			if er := errAt(got.re[i], got.im[i], truth.re[i], truth.im[i], realType(s.outType)); er > worst || math.IsNaN(er) {
+				worst, wi = er, i
+			}
+		}
+		if worst <= B {
+			c.Max("max_ckks_decode_err_over_bound_x1000_"+e.pathTag, int64(1000*worst/B))
+			if os.Getenv("C07_DEBUG") != "" && worst > 0.2*B {
+				fmt.Fprintf(os.Stderr, "RATIO %.3f %s logprec=%v\n", worst/B, desc(), d.logprec)
+			}
+		}
+		if !(worst <= B) {
+			c.Violate("C07|"+api+"|wrong-value|"+cls, desc()+fmt.Sprintf(": logprec=%v out len %d: slot %d is off by %.4g, bound %.4g", d.logprec, d.outLen, wi, worst, B), e.cfg)
+			continue
+		}
+		if d.logprec != 0 {
+			e.gridCheck(got, d.logprec, s, cls, desc)
+		}
+	}
+}
+
+// gridCheck: every value returned by DecodePublic is a multiple of 2^-logprec up to the rounding
+// of the output type.
+func (e *ckksEnv) gridCheck(got cvec, logprec float64, s sub, cls string, desc func() string) {
+	c := e.c
+	p := e.prec
+	if op := outPrec(s.outType); op < p {
+		p = op
+	}
+	// the library computes 2^logprec as exp(logprec*ln 2) at the working precision: a few ulps off
+	tol := math.Ldexp(1, -(int(p) - 8))
+	var sc *big.Float
+	if logprec == math.Floor(logprec) {
+		sc = new(big.Float).SetPrec(tprec).SetMantExp(big.NewFloat(1), int(logprec))
+	} else {
+		sc = new(big.Float).SetPrec(tprec).SetFloat64(math.Exp2(logprec))
+		if tol < math.Ldexp(1, -48) {
+			tol = math.Ldexp(1, -48)
+		}
+	}
+	checked := 0
+	for i := range got.re {
+		for _, x := range []*big.Float{got.re[i], got.im[i]} {
+			y := new(big.Float).SetPrec(tprec).Mul(x, sc)
+			ay, _ := new(big.Float).Abs(y).Float64()
+			if ay*tol > 0.125 {
+				continue // the grid is finer than the precision of the value: nothing to observe
+			}
+			yi, _ := y.Int(nil)
+			fr := new(big.Float).SetPrec(tprec).Sub(y, new(big.Float).SetPrec(tprec).SetInt(yi))
+			f, _ := fr.Float64()
+			f = math.Abs(f)
+			if f > 0.5 {
+				f = 1 - f
+			}
+			checked++
+			if f > ay*tol+1e-300 {
+				c.Violate("C07|ckks.Encoder.DecodePublic|not-on-grid|"+cls, desc()+fmt.Sprintf(": logprec=%v: slot %d value %s times 2^logprec is %.6g away from an integer (tolerance %.3g)", logprec, i, x.Text('g', 20), f, ay*tol), e.cfg)
+				return
+			}
+		}
+	}
+	c.Eval(1)
+	c.Count("ckks_grid_values_checked", int64(checked))
+}
+
+// product: the product (in Z_Q[X]/(X^N+1), naive model) of two encodings decodes, at the product
+// of the scales, to the slot-wise product.
+func (e *ckksEnv) product(level, logSlots int) {
+	c := e.c
+	if e.ci && logSlots == 0 && e.sparse(0) {
+		return // the 1-slot conjugate-invariant encoding is judged (and fails) in slotCase
+	}
+	if e.N > 512 && e.rnd.N(3) != 0 {
+		return
+	}
+	n := 1 << logSlots
+	nReal := 2 * n
+	if e.ci {
+		nReal = n
+	}
+	lq := e.log2Q(level)
+	k := (lq - 4 - ref.BitLen(uint64(nReal)) - 4) / 2
+	if k > 62 {
+		k = 62
+	}
+	if k < 10 {
+		c.Count("ckks_product_skipped_Q_too_small", 1)
+		return
+	}
+	rQ := e.params.RingQ().AtLevel(level)
+	sc := rlwe.NewScale(new(big.Float).SetMantExp(big.NewFloat(1), k))
+	sf := math.Ldexp(1, k)
+	typ := "c128"
+	mant := uint(53)
+	if e.arb {
+		typ, mant = "bigC", e.prec
+	}
+	var vs [2]cvec
+	var pl [2]ring.Poly
+	var Ms [2]float64
+	for i := 0; i < 2; i++ {
+		vs[i] = e.genVec(n, eng.Pick(e.rnd, "disc", "alt", "holes", "onehot"), 2, -k, mant, e.ci)
+		Ms[i] = maxMod(vs[i])
+		pt := ckks.NewPlaintext(e.params, level)
+		pt.LogDimensions.Cols = logSlots
+		pt.Scale = sc
+		var err error
+		if !c.Try("C07|ckks.Encoder.Encode", func() { err = e.ecd.Encode(e.toInput(vs[i], typ, mant), pt) }) || err != nil {
+			return
+		}
+		pl[i] = obs.Plain(rQ, pt.Value, true, false)
+	}
+	prod := ckks.NewPlaintext(e.params, level)
+	prod.LogDimensions.Cols = logSlots
+	prod.Scale = sc.Mul(sc)
+	for i, q := range rQ.ModuliChain()[:level+1] {
+		if e.ci {
+			copy(prod.Value.Coeffs[i], ref.ConjInvMul(pl[0].Coeffs[i], pl[1].Coeffs[i], q))
+		} else {
+			copy(prod.Value.Coeffs[i], ref.NegacyclicMul(pl[0].Coeffs[i], pl[1].Coeffs[i], q))
+		}
+	}
+	rQ.NTT(prod.Value, prod.Value)
+	out := newOutput(typ, n)
+	var err error
+	if !c.Try("C07|ckks.Encoder.Decode", func() { err = e.ecd.Decode(prod, out) }) {
+		return
+	}
+	c.Eval(1)
+	c.Count("ckks_products", 1)
+	c.Distinct(fmt.Sprintf("ckks/%s/%s/logN%d/%s/ls%d/product", e.ringTag, e.pathTag, e.cfg.LogN, lvlTag(level, e.params.MaxLevel()), logSlots), true)
+	if err != nil {
+		c.Violate("C07|ckks.Encoder.Decode|error-on-admissible", err.Error(), e.cfg)
+		return
+	}
+	got, bad := fromOutput(out)
+	B1 := e.bound(logSlots, sf, Ms[0], 1<<20)
+	B2 := e.bound(logSlots, sf, Ms[1], 1<<20)
+	B := Ms[1]*B1 + Ms[0]*B2 + B1*B2 + e.bound(logSlots, sf*sf, Ms[0]*Ms[1], outPrec(typ))
+	worst, wi := 0.0, -1
+	if bad == "" {
+		a, b := new(big.Float).SetPrec(tprec), new(big.Float).SetPrec(tprec)
+		for i := 0; i < n; i++ {
+			wr := new(big.Float).SetPrec(tprec)
+			wim := new(big.Float).SetPrec(tprec)
+			a.Mul(vs[0].re[i], vs[1].re[i])
+			b.Mul(vs[0].im[i], vs[1].im[i])
+			wr.Sub(a, b)
+			a.Mul(vs[0].re[i], vs[1].im[i])
+			b.Mul(vs[0].im[i], vs[1].re[i])
+			wim.Add(a, b)
+			if er := errAt(got.re[i], got.im[i], wr, wim, e.ci); er > worst || math.IsNaN(er) {
+				worst, wi = er, i
+			}
+		}
+	}
+	if worst <= B {
+		c.Max("max_ckks_product_err_over_bound_x1000", int64(1000*worst/B))
+	}
+	if bad != "" || !(worst <= B) {
+		d := "dense"
+		if e.sparse(logSlots) {
+			d = "sparse"
+		}
+		c.Violate(fmt.Sprintf("C07|ckks.Encoder|product-not-slotwise|%s/%s/%s", e.ringTag, e.pathTag, d), fmt.Sprintf("ring=%s N=%d level=%d logSlots=%d scale=2^%d precision=%d: product of two encodings decodes at slot %d %.4g away from the slot-wise product (bound %.4g) %s", e.ringTag, e.N, level, logSlots, k, e.ecd.Prec(), wi, worst, B, bad), e.cfg)
+	}
+}
+
+// coeffCases: coefficient-domain encoding (IsBatched=false) of []float64 / []*big.Float.
+func (e *ckksEnv) coeffCases(level int) {
+	c := e.c
+	rQ := e.params.RingQ().AtLevel(level)
+	N := e.N
+	reused := ckks.NewPlaintext(e.params, level)
+	first := true
+	for rep := 0; rep < 10; rep++ {
+		inType := eng.Pick(e.rnd, "f64", "bigF")
+		outType := eng.Pick(e.rnd, "f64", "bigF", "c128", "bigC")
+		var length int
+		var lenTag string
+		switch rep % 4 {
+		case 0:
+			length, lenTag = N, "full"
+		case 1:
+			length, lenTag = 1, "1"
+		case 2:
+			length, lenTag = N/2, "n/2"
+		default:
+			length, lenTag = 1+e.rnd.N(N), "rand"
+		}
+		isNTT := rep%5 != 4
+		scale, scTag := e.pickScale(level, (rep+e.rnd.N(2))%4)
+		sf := scaleF64(scale)
+		lq := e.log2Q(level)
+		exMax := lq - 2 - int(math.Ceil(math.Log2(sf)))
+		exMin := -int(math.Floor(math.Log2(sf)))
+		if exMax <= exMin-1 {
+			continue
+		}
+		if e.rnd.Bool() {
+			exMax = exMin + 1 + e.rnd.N(exMax-exMin+1)
+			if exMax > lq-2-int(math.Ceil(math.Log2(sf))) {
+				exMax = lq - 2 - int(math.Ceil(math.Log2(sf)))
+			}
+		}
+		pin, mant := uint(53), uint(53)
+		if inType == "bigF" {
+			pin = e.prec
+			if pin < 64 {
+				pin = 64
+			}
+			mant = pin
+		}
+		pat := eng.Pick(e.rnd, "real", "mixed", "tiny", "holes", "onehot", "alt")
+		v := e.genVec(length, pat, exMax+1, exMin, mant, true) // components < 2^exMax
+		var in any
+		if inType == "f64" {
+			in = e.toInput(v, "f64", 53)
+		} else {
+			// BigFloatToFixedPointCRT works at the precision of values[0]: every value non-nil at pin bits
+			o := make([]*big.Float, length)
+			for i := range o {
+				o[i] = new(big.Float).SetPrec(pin).Set(v.re[i])
+			}
+			in = o
+		}
+		M := maxMod(v)
+		fresh := first || e.rnd.N(3) == 0
+		first = false
+		pt := reused
+		if fresh {
+			pt = ckks.NewPlaintext(e.params, level)
+		}
+		pt.IsBatched = false
+		pt.IsNTT = isNTT
+		pt.Scale = scale
+		pt.LogDimensions = e.params.LogMaxDimensions()
+		key := fmt.Sprintf("ckks/%s/%s/logN%d/%s/coeff/ntt%v/%s>%s/%s/len%s/sc%s/fresh%v", e.ringTag, e.pathTag, e.cfg.LogN, lvlTag(level, e.params.MaxLevel()), isNTT, inType, outType, pat, lenTag, scTag, fresh)
+		c.Distinct(key, true)
+		c.Count("ckks_coeff_encodings", 1)
+		desc := func() string {
+			return fmt.Sprintf("ring=%s N=%d Q=%v level=%d coefficient domain IsNTT=%v in=%s out=%s pattern=%s len=%d scale=%s(%s) reused plaintext=%v max|v|=%.6g", e.ringTag, N, e.cfg.Q, level, isNTT, inType, outType, pat, length, scale.Value.Text('g', 12), scTag, !fresh, M)
+		}
+		var err error
+		if p, val := eng.Panics(func() { err = e.ecd.Encode(in, pt) }); p {
+			c.Violate("C07|ckks.Encoder.Encode|panic|coeff/"+inType, desc()+fmt.Sprintf(": %v", val), e.cfg)
+			continue
+		}
+		if err != nil {
+			c.Violate("C07|ckks.Encoder.Encode|error-on-admissible|coeff/"+inType, desc()+": "+err.Error(), e.cfg)
+			continue
+		}
+		// model: coefficient j of the polynomial (in the domain the flag announces) is round(v_j*scale)
+		pw := uint(53)
+		if inType == "bigF" {
+			pw = pin
+		}
+		bnd := func(x *big.Float, pout uint) float64 {
+			ax, _ := new(big.Float).Abs(x).Float64()
+			p := pw
+			if pout < p {
+				p = pout
+			}
+			return (1.0/sf + math.Ldexp(ax, -(int(p)-3))) * 1.01
+		}
+		coef, _, _, _ := polyCoeffs(rQ, pt.Value, isNTT, false, N, &scale.Value, e.mprec)
+		c.Eval(1)
+		zero := bf(0)
+		good := true
+		for j := 0; j < N && good; j++ {
+			want := zero
+			if j < length {
+				want = v.re[j]
+			}
+			er := errAt(coef[j], zero, want, zero, true)
+			if !(er <= bnd(want, 1<<20)) {
+				good = false
+				sig := "C07|ckks.Encoder.Encode|wrong-value|coeff/" + inType + "/" + lvlSig(level)
+				switch {
+				case !isNTT:
+					sig = "C07|ckks.Encoder.Encode|wrong-value|coeff/IsNTT-false-ignored"
+				case j >= length && !fresh && inType == "bigF":
+					sig = "C07|ckks.Encoder.Encode|padding-nonzero|coeff/bigF/reused-plaintext"
+				case j >= length:
+					sig = "C07|ckks.Encoder.Encode|padding-nonzero|coeff/" + inType
+				}
+				c.Violate(sig, desc()+fmt.Sprintf(": coefficient %d of the plaintext polynomial is %s/scale, want %s (bound %.3g)", j, coef[j].Text('g', 12), want.Text('g', 12), bnd(want, 1<<20)), e.cfg)
+			}
+		}
+		if !good {
+			continue
+		}
+		// the encoder's own decoding
+		for _, logprec := range []float64{0, 16} {
+			outLen := N
+			if logprec == 0 && e.rnd.Bool() && length < N {
+				outLen = length
+			}
+			out := newOutput(outType, outLen)
+			api := "ckks.Encoder.Decode"
+			call := func() { err = e.ecd.Decode(pt, out) }
+			if logprec != 0 {
+				api = "ckks.Encoder.DecodePublic"
+				call = func() { err = e.ecd.DecodePublic(pt, out, logprec) }
+			}
+			c.Eval(1)
+			if p, val := eng.Panics(call); p {
+				c.Violate("C07|"+api+"|panic|coeff/"+outType, desc()+fmt.Sprintf(": %v", val), e.cfg)
+				continue
+			}
+			if err != nil {
+				c.Violate("C07|"+api+"|error-on-admissible|coeff/"+outType, desc()+": "+err.Error(), e.cfg)
+				continue
+			}
+			// complex outputs of a coefficient-domain plaintext carry the value in the real part
+			var got cvec
+			var bad string
+			if oc, ok := out.([]*bignum.Complex); ok {
+				got = zeroVec(len(oc))
+				for i := range oc {
+					if oc[i] == nil || oc[i][0] == nil {
+						bad = fmt.Sprintf("slot %d nil", i)
+						continue
+					}
+					got.re[i] = new(big.Float).SetPrec(tprec).Set(oc[i][0])
+				}
+			} else {
+				got, bad = fromOutput(out)
+			}
+			if bad != "" {
+				c.Violate("C07|"+api+"|wrong-value|coeff/"+outType+"/"+lvlSig(level), desc()+": "+bad, e.cfg)
+				continue
+			}
+			c.Count("ckks_coeff_decodes", 1)
+			okd := true
+			for j := 0; j < outLen && okd; j++ {
+				want := zero
+				if j < length {
+					want = v.re[j]
+				}
+				b := bnd(want, outPrec(outType))
+				if outPrec(outType) > 64 {
+					b = bnd(want, 64)
+				}
+				if logprec != 0 {
+					b += 0.5 * math.Exp2(-logprec) * 1.001
+				}
+				if er := errAt(got.re[j], zero, want, zero, true); !(er <= b) {
+					okd = false
+					c.Violate("C07|"+api+"|wrong-value|coeff/"+outType+"/"+lvlSig(level), desc()+fmt.Sprintf(": logprec=%v coefficient %d decodes to %s, want %s (bound %.3g)", logprec, j, got.re[j].Text('g', 12), want.Text('g', 12), b), e.cfg)
+				}
+			}
+			if okd && logprec != 0 {
+				// public decoding rounds every value to a multiple of 2^-logprec
+				sc := new(big.Float).SetPrec(tprec).SetMantExp(big.NewFloat(1), int(logprec))
+				for j := 0; j < outLen; j++ {
+					y := new(big.Float).SetPrec(tprec).Mul(got.re[j], sc)
+					ay, _ := new(big.Float).Abs(y).Float64()
+					if ay > math.Ldexp(1, 40) {
+						continue
+					}
+					if !y.IsInt() {
+						c.Violate("C07|ckks.Encoder.DecodePublic|not-on-grid|coeff-domain", desc()+fmt.Sprintf(": logprec=%v: coefficient %d = %s is not a multiple of 2^-%v", logprec, j, got.re[j].Text('g', 20), logprec), e.cfg)
+						break
+					}
+				}
+			}
+		}
+	}
+}
+
+// fftChecks: Encoder.FFT against the naive special DFT; IFFT is its inverse.
+func (e *ckksEnv) fftChecks() {
+	c := e.c
+	for logn := 0; logn <= e.maxLogSlots; logn++ {
+		n := 1 << logn
+		if n > 256 && e.rnd.N(2) == 0 {
+			continue
+		}
+		mant := uint(53)
+		if e.arb {
+			mant = e.prec
+		}
+		x := e.genVec(n, eng.Pick(e.rnd, "disc", "mixed", "onehot", "alt"), 1, -40, mant, false)
+		mk := func() any {
+			if e.arb {
+				o := make([]*bignum.Complex, n)
+				for i := range o {
+					o[i] = &bignum.Complex{new(big.Float).SetPrec(e.prec).Set(x.re[i]), new(big.Float).SetPrec(e.prec).Set(x.im[i])}
+				}
+				return o
+			}
+			return e.toInput(x, "c128", 53)
+		}
+		c.Distinct(fmt.Sprintf("ckks/%s/%s/logN%d/fft/%d", e.ringTag, e.pathTag, e.cfg.LogN, logn), true)
+		c.Count("ckks_fft_checks", 1)
+		gamma := math.Ldexp(1, -(int(e.prec) - 4))
+		M := maxMod(x)
+		// forward vs model
+		y := mk()
+		var err error
+		if !c.Try("C07|ckks.Encoder.FFT", func() { err = e.ecd.FFT(y, logn) }) {
+			continue
+		}
+		if err != nil {
+			c.Violate("C07|ckks.Encoder.FFT|error-on-admissible", err.Error(), e.cfg)
+			continue
+		}
+		got, bad := fromOutput(y)
+		wr, wi := specialDFT(x.re, x.im, n, e.mprec)
+		B := gamma * float64(logn+2) * float64(n) * M * 1.01
+		worst := 0.0
+		for i := 0; i < n && bad == ""; i++ {
+			if er := errAt(got.re[i], got.im[i], wr[i], wi[i], false); er > worst || math.IsNaN(er) {
+				worst = er
+			}
+		}
+		c.Eval(1)
+		if bad != "" || !(worst <= B) {
+			c.Violate("C07|ckks.Encoder.FFT|wrong-value|"+e.ringTag+"/"+e.pathTag, fmt.Sprintf("ring=%s N=%d precision=%d logn=%d: FFT differs from the naive special DFT by %.4g (bound %.4g) %s", e.ringTag, e.N, e.ecd.Prec(), logn, worst, B, bad), e.cfg)
+		}
+		// inverse then model forward gives back the input
+		z := mk()
+		if !c.Try("C07|ckks.Encoder.IFFT", func() { err = e.ecd.IFFT(z, logn) }) {
+			continue
+		}
+		if err != nil {
+			c.Violate("C07|ckks.Encoder.IFFT|error-on-admissible", err.Error(), e.cfg)
+			continue
+		}
+		gz, bad := fromOutput(z)
+		B2 := gamma * float64(2*logn+4) * math.Sqrt(float64(n)) * M * 1.01
+		worst = 0
+		if bad == "" {
+			br, bi := specialDFT(gz.re, gz.im, n, e.mprec)
+			for i := 0; i < n; i++ {
+				if er := errAt(br[i], bi[i], x.re[i], x.im[i], false); er > worst || math.IsNaN(er) {
+					worst = er
+				}
+			}
+		}
+		c.Eval(1)
+		if bad != "" || !(worst <= B2) {
+			c.Violate("C07|ckks.Encoder.IFFT|wrong-value|"+e.ringTag+"/"+e.pathTag, fmt.Sprintf("ring=%s N=%d precision=%d logn=%d: DFT(IFFT(x)) differs from x by %.4g (bound %.4g) %s", e.ringTag, e.N, e.ecd.Prec(), logn, worst, B2, bad), e.cfg)
+		}
+		// FFT(IFFT(x)) == x with the encoder's own pair
+		if !c.Try("C07|ckks.Encoder.FFT", func() { err = e.ecd.FFT(z, logn) }) || err != nil {
+			continue
+		}
+		gz, bad = fromOutput(z)
+		worst = 0
+		for i := 0; i < n && bad == ""; i++ {
+			if er := errAt(gz.re[i], gz.im[i], x.re[i], x.im[i], false); er > worst || math.IsNaN(er) {
+				worst = er
+			}
+		}
+		c.Eval(1)
+		if bad != "" || !(worst <= 2*B2) {
+			c.Violate("C07|ckks.Encoder.FFT|not-inverse-of-IFFT|"+e.ringTag+"/"+e.pathTag, fmt.Sprintf("ring=%s N=%d precision=%d logn=%d: FFT(IFFT(x)) differs from x by %.4g (bound %.4g) %s", e.ringTag, e.N, e.ecd.Prec(), logn, worst, 2*B2, bad), e.cfg)
+		}
+	}
+}
